@@ -54,17 +54,6 @@ HARNESSES = [
   'oracle': 'no crash, no memory-safety failure, bounded termination',
   'bounds': {'quick': {'defs': {'LMAX': 4}, 'unwind': 6, 'cap': 600},
              'thorough': {'defs': {'LMAX': 5}, 'unwind': 7, 'cap': 3000}}},
- {'id': 'c15_save_expansion',
-  'property': 'C15',
-  'src': 'c15_expansion.cxx',
-  'entry': 'harness_c15_save_expansion',
-  'tus': _TUS, 'skip_ctors': _SKIP, 'cut': _CUT_HEAP_STRINGS + _CUT_VEC_REALLOC + [_EXPM], 'models': ['noinline.c'], 'tuflags': _TUF, 'hflags': _GA,
-  'nonterm_is_violation': True,
-  'desc': 'CPPManifest::save_expansion on every short macro body for F(a), then expand()/r_expand with 0, 1 and 2 arguments',
-  'domain': 'every body of length 0..LMAX over {a b space # , ( )}; 0..2 one-byte arguments; expand_manifests cut to identity (no macro table)',
-  'oracle': 'no crash, no memory-safety failure, bounded termination (the __VA_OPT__ recursion of save_expansion/r_expand is not reached)',
-  'bounds': {'quick': {'defs': {'LMAX': 3}, 'unwind': 5, 'unwindset': dict(_KW_LOOPS, **{_SE: 0, _REXP: 0}), 'cap': 600},
-             'thorough': {'defs': {'LMAX': 4}, 'unwind': 6, 'unwindset': dict(_KW_LOOPS, **{_SE: 0, _REXP: 0}), 'cap': 3000}}},
  {'id': 'c15_stringify',
   'property': 'C15',
   'src': 'c08_manifest.cxx',
@@ -101,6 +90,37 @@ HARNESSES = [
   'oracle': 'as c15_extract_args',
   'bounds': {'quick': {'defs': {'AMAX': 4}, 'unwind': 6, 'cap': 600},
              'thorough': {'defs': {'AMAX': 6}, 'unwind': 8, 'cap': 3000}}},
+]
+
+# ---- stream-driven scanners of cppPreprocessor.cxx ------------------------------------------------------------------
+_TRIM = '_ZL11trim_blanksRKNSt7__cxx1112basic_stringIcSt11char_traitsIcESaIcEEE'
+
+def _scan(id_, entry, desc, domain, extra_h=(), q=4, t=6):
+    return {'id': id_, 'property': 'C15', 'src': 'c15_scanners.cxx', 'entry': entry,
+            'tus': _TUS, 'skip_ctors': _SKIP, 'cut': _CUT_HEAP_STRINGS, 'export': [_TRIM], 'models': ['noinline.c'],
+            'tuflags': _TUF, 'hflags': _GA + list(extra_h), 'nonterm_is_violation': True,
+            'desc': desc, 'domain': domain,
+            'oracle': 'no crash (uncaught exception, abort, libstdc++ assertion), no memory-safety failure, every loop ends within the input length',
+            'bounds': {'quick': {'defs': {'NMAX': q}, 'unwind': q + 3, 'unwindset': {'vs_istream_bytes.0': q + 2}, 'cap': 600},
+                       'thorough': {'defs': {'NMAX': t}, 'unwind': t + 3, 'unwindset': {'vs_istream_bytes.0': t + 2}, 'cap': 3000}}}
+
+HARNESSES += [
+ _scan('c15_scan_raw', 'harness_c15_scan_raw',
+       'CPPPreprocessor::scan_raw (C++11 raw string R"delim( ... )delim") on the bytes following R", read through get()/InputFile::get()',
+       'every byte string of length 0..NMAX over {" ( ) a newline}'),
+ _scan('c15_scan_raw_rest', 'harness_c15_scan_raw',
+       'as c15_scan_raw with the known crashing class excluded (a quote in the raw string body before the body is as long as the '
+       'closing delimiter, e.g. R"(")")',
+       'as c15_scan_raw, minus texts whose first body quote comes too early', extra_h=['-DEXCLUDE_EARLY_QUOTE']),
+ _scan('c15_scan_quoted', 'harness_c15_scan_quoted',
+       'CPPPreprocessor::scan_quoted + scan_escape_sequence (hex, octal, simple escapes) on the bytes following an opening quote',
+       'every byte string of length 0..NMAX over {" \\ x 1 a newline}'),
+ _scan('c15_comments', 'harness_c15_comments',
+       'skip_c_comment, skip_cpp_comment (after the opening /* or //) and skip_digit_separator on the following bytes',
+       'every byte string of length 0..NMAX over {* / a \' 1 newline}; which scanner is a symbolic choice'),
+ _scan('c15_trim_blanks', 'harness_c15_trim_blanks',
+       'static trim_blanks() of cppPreprocessor.cxx (directive arguments, diagnostics)',
+       'every string of length 0..NMAX over {space a newline tab}', q=5, t=8),
 ]
 
 PROPERTY_INFO = {'C15': {'level': 'model_checking',
